@@ -17,11 +17,13 @@ VARIABLES coll,         \* [Registered -> [key -> value]]   (partial functions)
           last,         \* LastOffset
           strict,       \* WithStrictSchema
           resets, snaps, \* callback counts (WithOnReset, WithOnSnapshot)
-          errcb          \* calls of the WithOnError callback
-svars == <<coll, last, strict, resets, snaps, errcb>>
+          errcb,         \* calls of the WithOnError callback
+          snaparg        \* argument of the last WithOnSnapshot call: "none" | "start" (true) | "end" (false)
+svars == <<coll, last, strict, resets, snaps, errcb, snaparg>>
 
 Empty == [t \in Registered |-> <<>>]
 SInit(s) == coll = Empty /\ last = NoOffset /\ strict = s /\ resets = 0 /\ snaps = 0 /\ errcb = 0
+            /\ snaparg = "none"
 
 Drop(f, k) == [x \in DOMAIN f \ {k} |-> f[x]]
 IsChange(m) == m.kind \in {"insert", "update", "delete"}
@@ -43,14 +45,18 @@ Effect(c, m) ==
 \* the error callback is called when a registered collection fails to apply a change (an ill-typed value)
 ErrCallback(m) == IF m.kind = "badvalue" /\ m.type \in Registered THEN 1 ELSE 0
 
+\* the snapshot callback is told which marker it was: start = true, end = false
+SnapArg(m, old) == IF m.kind = "snapstart" THEN "start" ELSE IF m.kind = "snapend" THEN "end" ELSE old
+
 \* Materializer.Apply(event with offset off carrying m) returned err
 Apply(m, off, err) ==
   /\ err = Rejects(m)
-  /\ IF err THEN UNCHANGED <<coll, last, resets, snaps>>      \* an event that cannot be applied changes nothing
+  /\ IF err THEN UNCHANGED <<coll, last, resets, snaps, snaparg>>      \* an event that cannot be applied changes nothing
      ELSE /\ coll' = Effect(coll, m)
           /\ last' = off
           /\ resets' = resets + (IF m.kind = "reset" THEN 1 ELSE 0)
           /\ snaps' = snaps + (IF m.kind \in {"snapstart", "snapend"} THEN 1 ELSE 0)
+          /\ snaparg' = SnapArg(m, snaparg)
   /\ errcb' = errcb + ErrCallback(m)
   /\ UNCHANGED strict
 
@@ -58,10 +64,11 @@ Apply(m, off, err) ==
 ApplyDirect(m, err) ==
   /\ m.kind # "garbage"
   /\ err = Rejects(m)
-  /\ IF err THEN UNCHANGED <<coll, resets, snaps>>
+  /\ IF err THEN UNCHANGED <<coll, resets, snaps, snaparg>>
      ELSE /\ coll' = Effect(coll, m)
           /\ resets' = resets + (IF m.kind = "reset" THEN 1 ELSE 0)
           /\ snaps' = snaps + (IF m.kind \in {"snapstart", "snapend"} THEN 1 ELSE 0)
+          /\ snaparg' = SnapArg(m, snaparg)
   /\ errcb' = errcb + ErrCallback(m)
   /\ UNCHANGED <<last, strict>>
 
